@@ -13,7 +13,7 @@ import (
 
 func init() {
 	Register(&Scenario{Prop: "C13", Name: "snapshot-roundtrip", Run: scenC13, SoftParks: true, Weight: 1,
-		Rule: "node T (+0-2 feeders) with one event-log or key-value database; log shape drawn per run: empty, chain, fork/multi-writer via partial replication, containing replicated entries, or with replication in progress (announcement delivered, block fetches withheld); payload sizes drawn from {0,1,100,4 KiB,40 KiB,48 KiB-64 KiB around the 16-bit boundary,128 KiB,300 KiB}; SaveSnapshot on T (in a third of the runs while a second, small database of the same instance is being saved too), in a quarter of the runs one cache write of the save fails with a disk error; then clean close, reopen on the same directory, LoadFromSnapshot on the fresh store object; oracle: SaveSnapshot returns an error, or the reloaded store (after re-queued fetches come to rest) has the same entry set, heads and visible state; neither call may panic; non-trivial = log has >=2 entries or >=1 replicated entry or a payload >=40 KiB or replication in progress"})
+		Rule: "node T (+0-2 feeders) with one event-log or key-value database; log shape drawn per run: empty, chain, fork/multi-writer via partial replication, containing replicated entries, or with replication in progress (announcement delivered, block fetches withheld); payload sizes drawn from {0,1,100,4 KiB,40 KiB,48 KiB-64 KiB around the 16-bit boundary,128 KiB,300 KiB}; SaveSnapshot on T (in a third of the runs while a second, small database of the same instance is being saved too), in a third of the runs an earlier snapshot is saved half-way through the history; in a quarter of the runs one cache write of the save fails with a disk error, the save is then repeated without fault; then clean close, reopen on the same directory, LoadFromSnapshot on the fresh store object; oracle: SaveSnapshot returns an error, or the reloaded store (after re-queued fetches come to rest) has the same entry set, heads and visible state; neither call may panic; non-trivial = log has >=2 entries or >=1 replicated entry or a payload >=40 KiB or replication in progress"})
 }
 
 var c13Sizes = []int{0, 1, 100, 4096, 40 * 1024, 48 * 1024, 49000, 49100, 49152, 50000, 64*1024 - 1, 64 * 1024, 64*1024 + 1, 128 * 1024, 300 * 1024}
@@ -60,6 +60,7 @@ func scenC13(k *K) {
 	if shape > 0 {
 		nw = k.C.Range(1, 6)
 	}
+	earlier := k.C.Chance(1, 3)
 	for i := 0; i < nw; i++ {
 		node := 0
 		if shape >= 2 && k.C.Chance(1, 2) {
@@ -67,6 +68,15 @@ func scenC13(k *K) {
 		}
 		write(node)
 		k.Steps(k.C.Intn(8))
+		if earlier && i == nw/2 {
+			// an earlier snapshot of the same database, saved part-way through its history
+			k.Do(0, "save-snapshot-earlier", 100, func() (interface{}, error) {
+				ctx, cancel := OpCtx(2 * time.Minute)
+				defer cancel()
+				return basestore.SaveSnapshot(ctx, c.Stores[0])
+			})
+			k.W.Stat("earlier-snapshot-saved")
+		}
 	}
 	if shape != 4 {
 		k.Settle(60*time.Second, 2500, c.AllIdle)
@@ -217,8 +227,21 @@ func scenC13(k *K) {
 	if sop.Err != nil {
 		k.W.Stat("save-refused")
 		k.Notes["save_error"] = true
-		c.CloseAll()
-		return
+		// the application tries again, this time nothing fails
+		sop = k.Do(0, "save-snapshot-again", 100, func() (interface{}, error) {
+			ctx, cancel := OpCtx(2 * time.Minute)
+			defer cancel()
+			return basestore.SaveSnapshot(ctx, T)
+		})
+		if !sop.Done {
+			k.Failf("C13/save-hang", "the second SaveSnapshot (after one that reported an error) did not return")
+		}
+		if sop.Err != nil {
+			c.CloseAll()
+			return
+		}
+		k.W.Stat("save-repeated-after-error")
+		afterSet = LogHashSet(T)
 	}
 	// fresh store object of the same database on the same node
 	c.Down(0, false)
